@@ -2,6 +2,7 @@
    Statements only; every proof is one lemma of AV.XFloat.Facts. *)
 Require Import ZArith String.
 Require Import AV.Gen.XFloatParams AV.XFloat.LitShape AV.XFloat.Model AV.XFloat.Facts.
+Require Import AV.XFloat.TextShape AV.XFloat.TextModel AV.XFloat.TextFacts.
 Local Open Scope Z_scope.
 
 (* The generated constants are the ones the model derives, and the modelling
@@ -116,18 +117,27 @@ Print Assumptions xdf_classify_frnative.
 
 (* FULL STATEMENT (C19, last clause): a decimal literal converted at compile time denotes
    the same value as the same literal converted by the run time.
-   PROVED (partial): the constant folder (of_cfold.c, ArrToSFlo/ArrToDFlo) and the run time
-   (foam_c.c fiArrToSFlo/fiArrToDFlo) apply the same libc function to the literal text and
-   convert the result to the same C type -- for every behaviour of libc ([libc]), of the
-   hardware conversions ([d2f], [f2d]) and every text.  MISSING: that the text is the same
-   on both routes (glue shapes only, see lit_routes) and that libc's atof is a
-   deterministic, correctly rounding function of its text (trusted). *)
+   PROVED (partial): whenever the constant folder (of_cfold.c, ArrToSFlo/ArrToDFlo) folds a
+   literal, the constant is what the run time (foam_c.c fiArrToSFlo/fiArrToDFlo) computes
+   from the same text -- same libc function, same destination type -- and it is finite;
+   the folder declines (keeps the run-time call) exactly when that value is not finite
+   (/repo a5dd6ea: an infinity has no spelling in C, Lisp or FOAM text); the run-time
+   sites never decline.  For every behaviour of libc ([libc]), of the hardware conversions
+   ([d2f], [f2d]) and every text.  MISSING: that the text is the same on both routes (glue
+   shapes only, see lit_routes) and that libc's atof is a deterministic, correctly
+   rounding function of its text (trusted). *)
 Theorem lit_same_function_partial :
   forall (libc : string -> string -> Z) (d2f f2d : Z -> Z) (other : string -> cval) (text : string),
-    leval_to libc d2f f2d other (ls_dest XP.fold_sflo) text (ls_exp XP.fold_sflo)
-      = leval_to libc d2f f2d other (ls_dest XP.rt_sflo) text (ls_exp XP.rt_sflo) /\
-    leval_to libc d2f f2d other (ls_dest XP.fold_dflo) text (ls_exp XP.fold_dflo)
-      = leval_to libc d2f f2d other (ls_dest XP.rt_dflo) text (ls_exp XP.rt_dflo).
+    (forall v, site_fold libc d2f f2d other XP.fold_sflo text = Some v ->
+               v = site_value libc d2f f2d other XP.rt_sflo text /\ cval_finite v = true) /\
+    (forall v, site_fold libc d2f f2d other XP.fold_dflo text = Some v ->
+               v = site_value libc d2f f2d other XP.rt_dflo text /\ cval_finite v = true) /\
+    (site_fold libc d2f f2d other XP.fold_sflo text = None <->
+       cval_finite (site_value libc d2f f2d other XP.rt_sflo text) = false) /\
+    (site_fold libc d2f f2d other XP.fold_dflo text = None <->
+       cval_finite (site_value libc d2f f2d other XP.rt_dflo text) = false) /\
+    site_fold libc d2f f2d other XP.rt_sflo text = Some (site_value libc d2f f2d other XP.rt_sflo text) /\
+    site_fold libc d2f f2d other XP.rt_dflo text = Some (site_value libc d2f f2d other XP.rt_dflo text).
 Proof. exact lit_same_function_all. Qed.
 Print Assumptions lit_same_function_partial.
 
@@ -137,6 +147,47 @@ Theorem lit_routes :
   ls_dest XP.fold_sflo = CFloat /\ ls_dest XP.rt_sflo = CFloat /\
   ls_dest XP.fold_dflo = CDouble /\ ls_dest XP.rt_dflo = CDouble /\
   XP.fint_sflo = "fiArrToSFlo"%string /\ XP.genc_sflo = "fiArrToSFlo"%string /\
-  XP.fint_dflo = "fiArrToDFlo"%string /\ XP.genc_dflo = "fiArrToDFlo"%string.
+  XP.fint_dflo = "fiArrToDFlo"%string /\ XP.genc_dflo = "fiArrToDFlo"%string /\
+  ls_guard XP.fold_sflo = true /\ ls_guard XP.fold_dflo = true /\
+  ls_guard XP.rt_sflo = false /\ ls_guard XP.rt_dflo = false.
 Proof. exact lit_routes_all. Qed.
 Print Assumptions lit_routes.
+
+(* ---- the TEXT routes of a constant: generated C, Lisp, .fm (util.c DFloatSprint) ---- *)
+
+(* the current DFloatSprint has the modelled statement shape in both modes; the general
+   case is sprintf("%#.*g") with DBL_DIG + 2 = 17 (default) / DBL_DIG = 15 (-Wfloatrep)
+   significant digits *)
+Theorem dfloat_sprint_shape :
+  sm_ok sprint_default = true /\ sm_ok sprint_floatrep = true /\
+  sm_fmt sprint_default = "%#.*g"%string /\ sm_fmt sprint_floatrep = "%#.*g"%string /\
+  sm_prec sprint_default = XP.DBL_DIG + 2 /\ sm_prec sprint_floatrep = XP.DBL_DIG /\
+  XP.DBL_DIG = 15.
+Proof. exact sprint_shape_all. Qed.
+Print Assumptions dfloat_sprint_shape.
+
+(* the zero special case keeps the sign bit: +0.0 and -0.0 get different texts and each
+   reads back as itself, as written (C, Lisp) and with sexpr.c's exponent marker (.fm,
+   .lsp), in both precision modes *)
+Theorem dfloat_sprint_zero_keeps_sign :
+  forall bits, 0 <= bits < 2 ^ 64 -> is_zero64 bits = true ->
+    zero_text_reads_back sprint_default bits /\ zero_text_reads_back sprint_floatrep bits.
+Proof. exact sprint_zero_keeps_sign_all. Qed.
+Print Assumptions dfloat_sprint_zero_keeps_sign.
+
+(* FULL STATEMENT: every finite constant written as text reads back with the same bits.
+   PROVED (partial): this holds for DFloatSprint's default mode PROVIDED libc behaves as
+   the two named hypotheses say: [g17_roundtrip] (printf with 17 significant digits
+   followed by a correctly rounding reader is the identity on finite non-zero binary64)
+   and [reader_reads_zero_text].  Neither is proved here; both are exercised by the
+   correspondence run (real DFloatSprint output re-read, all exponents x boundary
+   fractions).  Not covered: -Wfloatrep (15 digits do not determine a double: by design
+   of that option) and non-finite constants (printf prints inf / nan, which no reader of
+   C, Lisp or .fm text accepts -- see the end-to-end stage). *)
+Theorem dfloat_sprint_readback_partial :
+  forall (printf_g : string -> Z -> Z -> string) (strtod : string -> option Z),
+    g17_roundtrip printf_g strtod -> reader_reads_zero_text strtod ->
+    forall bits, 0 <= bits < 2 ^ 64 -> finite64 bits = true ->
+      strtod (render printf_g (dfloatSprint sprint_default bits)) = Some bits.
+Proof. exact sprint_default_readback_all. Qed.
+Print Assumptions dfloat_sprint_readback_partial.
